@@ -31,6 +31,17 @@ def bounded(tier, seed):
     out.append(run_cases("prefixed-weighted-knots", comp, O.c02_check, knotted,
                          "knotted cores with random stem lengths placed after 0/1/2/4 unknotted hairpins vs brute force",
                          f"{len(comp)} structures", sig=repr, relates="convert_to_dot_bracket"))
+    # every perfect matching on 8 positions that is knotted (all conflict-graph shapes on 4 stems: paths, cycles, stars, cliques)
+    # with extreme stem weights: a heavy stem wants level 0 whatever the graph-colouring bounds say
+    from gen.pairings import all_pairings
+    pats = [(5, 1, 1, 5), (1, 5, 5, 1), (5, 1, 5, 1), (1, 5, 1, 5), (5, 5, 1, 1), (1, 1, 5, 5)]
+    if tier != "quick":
+        import itertools
+        pats = list(itertools.product((1, 5), repeat=4))
+    shaped = [stretch(q, list(w)) for q in all_pairings(8) if all(q) and knotted(q) for w in pats]
+    out.append(run_cases("weighted-four-stem-shapes", shaped, O.c02_check, knotted,
+                         "every knotted perfect matching on 8 positions (all 4-stem conflict graphs) with stem lengths from {1,5} in extreme patterns vs brute force",
+                         f"{len(shaped)} structures", sig=repr, relates="convert_to_dot_bracket"))
     return out
 
 
